@@ -190,6 +190,27 @@ def execute_result(h):
                 model[key] = copy.deepcopy(v)
                 if op.get("mutate"):
                     _mutate(v)
+        elif k == "setattr":
+            # attribute-style assignment: whatever it does (plain instance attribute, write-through, or an
+            # exception), it may never create an unknown field, and a field it writes must hold a copy
+            v = _val(op["val"])
+            try:
+                setattr(res, key, v)
+            except Exception:   # noqa
+                pass
+            if not known and dict.__contains__(res, key):
+                probs.append(("result-unknown-key", f"attribute assignment created the unknown field {key!r}", i))
+                break
+            if known and dict.__contains__(res, key):
+                cur = dict.__getitem__(res, key)
+                if not (key in model and _eq(cur, model[key])):
+                    if _eq(cur, v):
+                        model[key] = copy.deepcopy(v)      # written through as a field
+                    else:
+                        probs.append(("result-read", f"attribute assignment left a wrong value in field {key!r}", i))
+            if op.get("mutate"):
+                _mutate(v)
+            vars(res).pop(key, None)       # drop a plain instance attribute so that it does not shadow later reads
         elif k == "get":
             for how in ("key", "attr"):
                 try:
@@ -252,8 +273,11 @@ def gen_case(seed, i):
     ops = []
     for _ in range(rng.randrange(1, 20)):
         key = rng.choice(from_keys) if rng.random() < 0.85 else rng.choice(["bogus", "X", "fvall", "keys_"])
-        if rng.random() < 0.6:
+        t = rng.random()
+        if t < 0.55:
             ops.append(dict(op="set", key=key, val=gen_value(rng), mutate=rng.random() < 0.5))
+        elif t < 0.7:
+            ops.append(dict(op="setattr", key=key, val=gen_value(rng), mutate=rng.random() < 0.5))
         else:
             ops.append(dict(op="get", key=key))
     return dict(kind="result", ops=ops)
